@@ -51,8 +51,8 @@ func symSink(R int) *fsState {
 	s.MaxBytes = nondetInt()
 	s.MaxFiles = nondetInt()
 	verifAssume(s.MaxFiles >= 0)
+	// any value: a negative duration (like zero) never triggers a time rotation
 	s.MaxDuration = time.Duration(nondetInt())
-	verifAssume(s.MaxDuration >= 0)
 	s.TimestampOnlyOnRotate = nondetBool()
 	s.Mode = os.FileMode(nondetInt())
 	verifAssume(s.Mode >= 0)
@@ -396,7 +396,6 @@ func H_C08_history() {
 	s.MaxBytes = nondetInt()
 	s.MaxFiles = symLen(0, 2)
 	s.MaxDuration = time.Duration(nondetInt())
-	verifAssume(s.MaxDuration >= 0)
 	s.TimestampOnlyOnRotate = nondetBool()
 	var acked []string
 	H := verifParam("H")
